@@ -470,6 +470,11 @@ func (r *reporter) summaryVec(
 	defer r.Unlock()
 
 	if s, ok := r.timers[id]; ok {
+		if s.summary == nil {
+			// n.b. Summaries and histograms share the timers map: the name
+			//      is already taken by a histogram.
+			return nil, errors.Errorf("%s is already registered as a histogram", name)
+		}
 		return s.summary, nil
 	}
 
@@ -502,6 +507,11 @@ func (r *reporter) histogramVec(
 	defer r.Unlock()
 
 	if h, ok := r.timers[id]; ok {
+		if h.histogram == nil {
+			// n.b. Summaries and histograms share the timers map: the name
+			//      is already taken by a summary.
+			return nil, errors.Errorf("%s is already registered as a summary", name)
+		}
 		return h.histogram, nil
 	}
 
